@@ -374,7 +374,9 @@ def accept(seed, n=30):
             params.append("R:G0:i")
             params.append("R:G1:i")
         elif x < 0.97:
-            pass
+            # no receiver at all (configuration error); the protocol does not allow a fetcher-like parameter in front, so an
+            # `&Entities` parameter leads
+            params.append("Ent")
         else:
             rq = r.choice(FAMILY["recv_other"])
             rq2 = r.choice(FAMILY["recv_other"])
